@@ -354,6 +354,15 @@ func VH_C10_selectors() {
 	if ni > 0 {
 		k.Namespace = &KubeNamespaceSelectorV1{LabelSelector: ns}
 	}
+	// namespace.nameSelector may stand alone or beside namespace.labelSelector (the schema
+	// allows both): each is carried into the monitor configuration
+	nsNames := zz.Bool("namespace_name_selector")
+	if nsNames {
+		if k.Namespace == nil {
+			k.Namespace = &KubeNamespaceSelectorV1{}
+		}
+		k.Namespace.NameSelector = &kemtypes.NameSelector{MatchNames: []string{"ns-1", "ns-2"}}
+	}
 	fi := zz.Len("field_selector", 0, 3)
 	fok := true
 	switch fi {
@@ -385,8 +394,18 @@ func VH_C10_selectors() {
 				zz.Assert(m.LabelSelector.MatchLabels[k] == v, "label_selector_carried_unchanged")
 			}
 		}
+		if nsNames {
+			gotNames := m.NamespaceSelector != nil && m.NamespaceSelector.NameSelector != nil
+			zz.Assert(gotNames, "namespace_name_selector_carried")
+			if gotNames {
+				mn := m.NamespaceSelector.NameSelector.MatchNames
+				zz.Assert(len(mn) == 2 && mn[0] == "ns-1" && mn[1] == "ns-2", "namespace_name_selector_carried")
+			}
+		} else {
+			zz.Assert(m.NamespaceSelector == nil || m.NamespaceSelector.NameSelector == nil, "namespace_name_selector_carried")
+		}
 		if ni == 0 {
-			zz.Assert(m.NamespaceSelector == nil, "namespace_selector_carried_unchanged")
+			zz.Assert(m.NamespaceSelector == nil || (nsNames && m.NamespaceSelector.LabelSelector == nil), "namespace_selector_carried_unchanged")
 		} else {
 			got := m.NamespaceSelector != nil && m.NamespaceSelector.LabelSelector != nil
 			zz.Assert(got, "namespace_selector_carried_unchanged")
